@@ -958,6 +958,9 @@ pub fn gen_ready(interest: u8, rev: i16) -> bool {
 
 /// Check the collected batch against the model (ghost events, one-shot arming).
 pub fn batch_hook(sim: &Sim, events: &mut Vec<BatchEvent>, n_fd: usize) {
+    // faults injected since the last top-level step (inside run(), deep inside a drop) are
+    // attributed to the owners of the fds they hit before anything is judged
+    crate::ops::attribute_faults(sim);
     let mut st = sim.st.borrow_mut();
     let mut viol: Option<(&'static str, Vec<String>, String)> = None;
     for (i, e) in events.iter().enumerate() {
